@@ -265,7 +265,8 @@ impl Interpolation {
             })
             .collect::<Vec<_>>();
 
-        let builder_name = format!("{}_builder", key);
+        // use the identifier of the key (`n-2` => `n_2`), its name is not always a valid identifier
+        let builder_name = format!("{}_builder", key.ident);
 
         let ident = syn::Ident::new(&builder_name, Span::call_site());
 
